@@ -10,9 +10,13 @@ CONSTANTS
   InitMs = 3
   InitRems = {0, 500000}
   NTerms = 3
+  ChainPeriods = {1, 2, 3, 4}
+  Starts = {1, 2, 3}
+  NodeAts = {"genesis", "tip"}
   KeepHist = TRUE
   KF_TdposPreInit = FALSE
   KF_XpoaNegativeTs = FALSE
+  KF_TdposTermSetOffset = FALSE
 CONSTRAINT Dump
 VIEW View
 CHECK_DEADLOCK FALSE
